@@ -347,16 +347,16 @@ type batchItem struct {
 
 // runBatches runs the scenarios in lock-step batches: start all, add links,
 // wait for process-wide quiescence, evaluate, stop.
-func runBatches(r *vf.Run, scens []*Scenario, rng *rand.Rand, batch int, eval func(it *batchItem)) {
+func runBatches(r *vf.Run, tag string, scens []*Scenario, rng *rand.Rand, batch int, eval func(it *batchItem)) {
 	pool := keys.Pool(rng, 3)
 	t0 := time.Now() // evidence only
 	var tm [6]time.Duration
 	lap := time.Now()
 	mark := func(i int) { tm[i] += time.Since(lap); lap = time.Now() }
 	defer func() {
-		r.Extra("two_node_phase_breakdown_s", fmt.Sprintf("start=%.2f quiesce-idle=%.2f quiesce-links=%.2f dynamic=%.2f eval=%.2f stop-drain=%.2f", tm[0].Seconds(), tm[1].Seconds(), tm[2].Seconds(), tm[3].Seconds(), tm[4].Seconds(), tm[5].Seconds()))
-		r.Extra("two_node_phase_s", time.Since(t0).Seconds())
-		r.Extra("goroutines_left_after_two_node_phase", runtime.NumGoroutine())
+		r.Extra("two_node_phase_breakdown_s"+tag, fmt.Sprintf("start=%.2f quiesce-idle=%.2f quiesce-links=%.2f dynamic=%.2f eval=%.2f stop-drain=%.2f", tm[0].Seconds(), tm[1].Seconds(), tm[2].Seconds(), tm[3].Seconds(), tm[4].Seconds(), tm[5].Seconds()))
+		r.Extra("two_node_phase_s"+tag, time.Since(t0).Seconds())
+		r.Extra("goroutines_left_after_two_node_phase"+tag, runtime.NumGoroutine())
 	}()
 	for off := 0; off < len(scens); off += batch {
 		end := off + batch
@@ -546,7 +546,7 @@ func RunTwoNodeC30(r *vf.Run) {
 		scens = append(scens, GenSeparatorScenario(srng, kind, 3*k+k/4))
 	}
 	sampled, sampledSep := 0, 0
-	runBatches(r, scens, rng, 24, func(it *batchItem) {
+	eval := func(it *batchItem) {
 		s, t := it.scen, it.t
 		exp, refused := s.stats()
 		r.Case("2n|"+s.Sig(), exp > 0 && refused > 0)
@@ -567,6 +567,41 @@ func RunTwoNodeC30(r *vf.Run) {
 		}
 		r.Count("two_node_scenarios", 1)
 		r.Extra("directives_differing_only_in_transport_generated", transportDistinguished())
+		if len(s.Deriv) > 0 {
+			for _, d := range s.Deriv {
+				r.Count("two_node_derived_pairs_solicited", 1)
+				r.Distinct("derivation_rules_in_two_node_scenarios", d.Rule)
+				if d.BaseCtxLen > 32 {
+					r.Count("two_node_derived_pairs_base_context_longer_than_32_bytes", 1)
+				}
+				if d.BaseCtxLen >= 1000 {
+					r.Count("two_node_derived_pairs_base_context_1000_bytes_or_more", 1)
+				}
+			}
+		}
+		if len(s.Script) > 0 {
+			rel, stl, qs := s.setChangeStats()
+			r.Count("two_node_set_change_releases_scripted", rel)
+			r.Count("two_node_set_change_stalls_scripted", stl)
+			r.Count("two_node_set_change_quiescence_points_inside_history", qs)
+			low := 0
+			if s.SwapIDs {
+				low = 1
+			}
+			for ni := 0; ni < 2; ni++ {
+				role := "higher_peer_id"
+				if ni == low {
+					role = "lower_peer_id"
+				}
+				for di := range s.Dirs[ni] {
+					if s.Released(ni, di) {
+						r.Count("two_node_requests_released_on_"+role+"_node", 1)
+					}
+				}
+				r.Count("two_node_releases_executed", int(t.Nodes[ni].Releases.Load()))
+				r.Count("two_node_control_loops_seen_parked_in_stalled_send_"+role, int(t.Nodes[ni].StalledSends.Load()))
+			}
+		}
 		if s.Dynamic {
 			r.Count("two_node_scenarios_dynamic", 1)
 		}
@@ -641,9 +676,17 @@ func RunTwoNodeC30(r *vf.Run) {
 								sepJoined = true
 							}
 						}
+						derived := ""
+						for _, o := range append(append([]DirSpec(nil), s.Dirs[ni]...), s.Dirs[1-ni]...) {
+							if rule := s.derivRule(o.P, o.C, d.P, d.C); rule != "" {
+								derived = rule
+							}
+						}
 						switch {
 						case mergedCls != "":
 							cls = mergedCls
+						case derived != "" && s.Admits(d, li) && !samePC:
+							cls = "derived-pair"
 						case sepJoined && !shiftedAdmitting && s.Admits(d, li):
 							cls = "separator-joined-key"
 							if len(s.Stages) > 1 {
@@ -656,7 +699,7 @@ func RunTwoNodeC30(r *vf.Run) {
 						}
 						r.Violation("two-node/unexpected-match/"+cls,
 							"a SolicitProtocol directive received a stream although the other side has no solicitation with the same (protocol id, context) admitting this link",
-							map[string]any{"scenario": s, "node": ni, "directive": d, "link": li + 1, "other_side": s.Dirs[1-ni], "same_side": s.Dirs[ni]})
+							map[string]any{"scenario": s, "node": ni, "directive": d, "link": li + 1, "other_side": s.Dirs[1-ni], "same_side": s.Dirs[ni], "derivation_rule": derived})
 					case want && got[li] == 0:
 						if !s.MustHave(ni, di, li) {
 							// dynamic scenario, directive registered after another local one
@@ -672,6 +715,8 @@ func RunTwoNodeC30(r *vf.Run) {
 						mkey := "two-node/missing-match"
 						if mergedCls != "" {
 							mkey += "/" + mergedCls
+						} else if rel, _, _ := s.setChangeStats(); rel > 0 {
+							mkey = "two-node/missing-match/after-solicitation-set-change"
 						} else {
 							for _, o := range s.Dirs[ni] {
 								if sp, ok := JoinCollision(o.P, o.C, d.P, d.C); ok && sp != "" {
@@ -681,7 +726,7 @@ func RunTwoNodeC30(r *vf.Run) {
 						}
 						r.Violation(mkey,
 							"both sides solicit the same (protocol id, context) and both constraints admit the link, but at quiescence the directive has no value for it",
-							map[string]any{"scenario": s, "node": ni, "directive": d, "link": li + 1, "other_side": s.Dirs[1-ni], "values_at_node": len(node.Values()), "streams": len(t.Streams())})
+							map[string]any{"scenario": s, "node": ni, "directive": d, "link": li + 1, "other_side": s.Dirs[1-ni], "values_at_node": len(node.Values()), "streams": len(t.Streams()), "node_is_the_lower_peer_id": (ni == 0) != s.SwapIDs})
 					}
 				}
 			}
@@ -690,7 +735,25 @@ func RunTwoNodeC30(r *vf.Run) {
 			sampled++
 			r.Sample(map[string]any{"kind": "two-node", "scenario": s, "expected_matches": exp, "streams_opened": len(t.Streams())})
 		}
-	})
+	}
+	runBatches(r, "", scens, rng, 24, eval)
+
+	// DERIVATION block: a base request with a long context (33..4096 bytes) on one
+	// node, pairs DERIVED from it (digest / encoding / truncation of the context,
+	// the id's digest mixed in, ...) on the other; and the SET-CHANGE block:
+	// scripted histories with releases and control-stream back-pressure.
+	drng := r.Rand("c30-two-node-derivations")
+	var more []*Scenario
+	for k, nd := 0, r.N(42, 600); k < nd; k++ {
+		more = append(more, GenDerivationScenario(drng, k, k))
+	}
+	crng := r.Rand("c30-two-node-set-changes")
+	for k, nc := 0, r.N(54, 700); k < nc; k++ {
+		more = append(more, GenChurnScenario(crng, k))
+	}
+	// interleave the two families so that every batch holds both
+	crng.Shuffle(len(more), func(i, j int) { more[i], more[j] = more[j], more[i] })
+	runBatches(r, "/derivation+set-change", more, rng, 32, eval)
 }
 
 // RunTwoNodeC31 is the two-node part of C31: for every physical stream end the
@@ -705,8 +768,16 @@ func RunTwoNodeC31(r *vf.Run) {
 		&Scenario{Links: 1, Dirs: [2][]DirSpec{{{"test/echo", "", PeerNone, TptNone}, {"test/echo", "", PeerRight, TptNone}}, {{"test/echo", "", PeerNone, TptNone}}}},
 		&Scenario{Links: 2, SwapIDs: true, Dirs: [2][]DirSpec{{{"dex/v1", "bucket", PeerNone, TptLink1}, {"dex/v1", "bucket", PeerRight, TptNone}}, {{"dex/v1", "bucket", PeerNone, TptNone}, {"dex/v1", "bucket", PeerRight, TptLink2}}}},
 	)
+	// FAULTY STREAMS: in every third generated scenario both ends of every
+	// solicited stream misbehave on Close (error always / on the first call / on
+	// repeated calls / once the remote end is gone; slow Close)
+	frng := r.Rand("c31-two-node-stream-faults")
 	for len(scens) < n {
-		scens = append(scens, GenScenario(rng, true))
+		sc := GenScenario(rng, true)
+		if len(scens)%3 == 0 {
+			sc.StreamFault = 1 + frng.IntN(NumCloseFaults-1)
+		}
+		scens = append(scens, sc)
 	}
 	// own batches: several local requests match one stream and one of their
 	// resolver handlers REJECTS the value or goes away around the match (real
@@ -714,7 +785,11 @@ func RunTwoNodeC31(r *vf.Run) {
 	// call or at stream arrival; harness ResolverHandlers answering ok=false)
 	rrng := r.Rand("c31-two-node-reject")
 	for k, nRej := 0, r.N(72, 1200); k < nRej; k++ {
-		scens = append(scens, GenRejectScenario(rrng, k))
+		sc := GenRejectScenario(rrng, k)
+		if k%4 == 3 {
+			sc.StreamFault = 1 + frng.IntN(NumCloseFaults-1)
+		}
+		scens = append(scens, sc)
 	}
 	// accept / close plan is drawn up front so that it does not depend on arrival order
 	type plan struct{ seed uint64 }
@@ -728,9 +803,13 @@ func RunTwoNodeC31(r *vf.Run) {
 	}
 	verifhook.SetPoint("solicit.accept.gap", nil)
 	sampled := 0
-	runBatches(r, scens, rng, 24, func(it *batchItem) {
+	runBatches(r, "", scens, rng, 24, func(it *batchItem) {
 		s, t := it.scen, it.t
 		prng := rand.New(rand.NewPCG(plans[idx[s]].seed, 31))
+		fprng := rand.New(rand.NewPCG(plans[idx[s]].seed, 3131))
+		if s.StreamFault != 0 {
+			r.Count("two_node_scenarios_with_faulty_solicited_streams_"+CloseFaultNames[s.StreamFault], 1)
+		}
 		multi := 0
 		for ni := 0; ni < 2; ni++ {
 			node := t.Nodes[ni]
@@ -758,6 +837,20 @@ func RunTwoNodeC31(r *vf.Run) {
 				case 2:
 					ops = []string{"accept", "accept"}
 				}
+				if s.StreamFault != 0 {
+					// faulty streams: more closes, and closes that have RETURNED before
+					// the accept of the same value is called (one goroutine: "close;accept")
+					switch fprng.IntN(6) {
+					case 0:
+						ops = []string{"close;accept"}
+					case 1:
+						ops = []string{"close;accept", "accept"}
+					case 2:
+						ops = []string{"close", "accept"}
+					case 3:
+						ops = []string{"close", "close;accept"}
+					}
+				}
 				for _, op := range ops {
 					wg.Add(1)
 					go func(vi int, v RecvValue, op string) {
@@ -765,6 +858,15 @@ func RunTwoNodeC31(r *vf.Run) {
 						<-start
 						var x res
 						x.val, x.op = vi, op
+						if op == "close;accept" {
+							if c, ok := v.Val.(interface{ Close() bool }); ok {
+								x.closed = c.Close()
+							}
+							mu.Lock()
+							results = append(results, res{val: vi, op: "close", closed: x.closed})
+							mu.Unlock()
+							x.op, op = "accept", "accept"
+						}
 						if op == "accept" {
 							ms, _, err := v.Val.AcceptMountedStream()
 							if err == nil {
@@ -842,6 +944,7 @@ func RunTwoNodeC31(r *vf.Run) {
 					}
 					wit := map[string]any{"scenario": s, "node": ni, "stream_protocol": string(rec.Proto), "closes": c, "owners": len(ow),
 						"owning_directives": dirs, "owner_modes": modes, "closes_seen_when_the_accept_returned_the_stream": closedAtAccept[rec],
+						"solicited_stream_close_behaviour": CloseFaultNames[s.StreamFault],
 						"add_value_rejections_by_harness_handlers_on_node": node.Rejected.Load(), "sibling_instances_closed_by_consumers_on_node": node.SiblingCloses.Load(), "instances_closed_at_stream_arrival_on_node": node.GoneCloses.Load()}
 					if s.Note != "" {
 						r.Count("two_node_accepted_streams_closed_in_"+s.Note, 1)
